@@ -99,6 +99,7 @@ type Gen struct {
 	retCount int
 	allowedTargets map[string][]frameTarget
 	lemmasUsed map[string]bool
+	declared map[string]bool
 }
 
 type loopInfo struct {
@@ -186,7 +187,7 @@ func (g *Gen) hasObl(name string) bool {
 
 func (g *Gen) kindEnabled(kind string) bool {
 	switch kind {
-	case "bounds", "nil", "div", "assert", "panic", "mapwrite", "makeslice":
+	case "bounds", "nil", "div", "assert", "panic", "mapwrite", "makeslice", "nilcall":
 		return g.safety[kind]
 	}
 	return true
@@ -311,13 +312,13 @@ func (g *Gen) fieldOf(ref string, structT types.Type, i int) (loc *Loc, subref s
 	f := u.Field(i)
 	ft = f.Type()
 	if isStruct(ft) || isArray(ft) {
-		subref = sx("fld", g.fieldID(structT, f.Name()), ref)
+		subref = sx("fld", g.fieldID(structT, fieldName(u, i)), ref)
 		if isArray(ft) {
 			return &Loc{Comp: "", Ref: subref, Ty: ft}, subref, ft
 		}
 		return nil, subref, ft
 	}
-	return &Loc{Comp: fieldComp(structT, f.Name()), Ref: ref, Ty: ft}, "", ft
+	return &Loc{Comp: fieldComp(structT, fieldName(u, i)), Ref: ref, Ty: ft}, "", ft
 }
 
 // loadStruct builds the struct value stored at ref.
@@ -388,6 +389,18 @@ func (g *Gen) ghostTerm(s *State, name string) string {
 	}
 	if name == "$brk" {
 		return "brk0"
+	}
+	if srt := g.ghostSorts[name]; srt != "" && srt != "Int" && srt != "Bool" {
+		// an arbitrary but fixed default value of that sort
+		dn := "ghostdefault." + sanitize(srt)
+		if !g.declared[dn] {
+			if g.declared == nil {
+				g.declared = map[string]bool{}
+			}
+			g.declared[dn] = true
+			g.declare(dn, srt)
+		}
+		return quoteID(dn)
 	}
 	return "0"
 }
